@@ -14,7 +14,7 @@ sys.path.insert(0, os.path.dirname(os.path.abspath(__file__)))
 import compose  # noqa: E402
 from compose import Undecided, VERIF, REPO  # noqa: E402
 
-BUILD = os.path.join(VERIF, "build")
+BUILD = os.environ.get("RWS_BUILD_DIR") or os.path.join(VERIF, "build")
 KNOWN = os.path.join(VERIF, "known_findings.txt")
 
 KINDS = [
